@@ -68,6 +68,12 @@ def _run_one(case):
         for i, (e, g, st) in enumerate(zip(exp, seen, case["prog"])):
             if e is None and st["s"] == "query" and st["q"] in PRECOND_Q:
                 seen[i] = {"t": "skip", "was": g}
+            # the same outside the float domain for the window statistics: where the property is silent (unbounded window,
+            # no finite piece on which both operands are defined) the datetime-like domains raise from `0.0 / Timedelta(0)`
+            # or from comparing a Timedelta with an infinity, where the float domain returns NaN
+            elif (e is None and st["s"] == "query" and st["q"] in ("cov", "corr", "rolling") and g.get("t") == "err"
+                  and (case.get("flav") or {}).get("dom", "float") != "float"):
+                seen[i] = {"t": "skip", "was": g}
         bad = [i for i, (e, g) in enumerate(zip(exp, seen)) if not oracle.obs_equal(e, g, tol)]
     except Exception as exc:
         exp, bad = None, [-1]
